@@ -55,8 +55,10 @@ pub fn eval(c: &Sx) -> String {
             let (u, v) = (ver(&l[1..4]), ver(&l[4..7]));
             // Ord, PartialOrd and Eq must agree
             let c = u.cmp(&v);
-            assert_eq!(u.partial_cmp(&v), Some(c));
-            assert_eq!(u == v, c == std::cmp::Ordering::Equal);
+            // a disagreement is an observation (the oracle reports it with this case as the failing input), not an abort
+            if u.partial_cmp(&v) != Some(c) { return format!("{:?}-but-partial_cmp-is-{:?}", c, u.partial_cmp(&v)).to_lowercase(); }
+            if (u == v) != (c == std::cmp::Ordering::Equal) { return format!("{:?}-but-eq-is-{}", c, u == v).to_lowercase(); }
+            if v.cmp(&u) != c.reverse() { return format!("{:?}-but-reverse-is-{:?}", c, v.cmp(&u)).to_lowercase(); }
             format!("{:?}", c).to_lowercase()
         }
         "sv-tuple" => {
@@ -65,7 +67,7 @@ pub fn eval(c: &Sx) -> String {
             let v2: SemanticVersion = t.into();
             let v3: SemanticVersion = (&t).into();
             let v4: SemanticVersion = (&v).into();
-            assert!(v2 == v && v3 == v && v4 == v);
+            if !(v2 == v && v3 == v && v4 == v) { return "tuple-conversions-disagree".into(); }
             format!("({} {} {})", t.0, t.1, t.2)
         }
         "sv-bump" => {
